@@ -109,6 +109,9 @@ class _SuiteWalker(ast.RopeNodeVisitor):
     def _For(self, node):
         self._add_if_like_node(node)
 
+    def _AsyncFor(self, node):
+        self._add_if_like_node(node)
+
     def _While(self, node):
         self._add_if_like_node(node)
 
@@ -144,6 +147,9 @@ class _SuiteWalker(ast.RopeNodeVisitor):
             self._TryFinally(node)
         else:
             self._TryExcept(node)
+
+    def _TryStar(self, node):
+        self._Try(node)
 
     def _TryExcept(self, node):
         self.suites.append(Suite(node.body, node.lineno, self.suite))
